@@ -18,6 +18,7 @@ import Driver.C09
 import Driver.C12
 import Driver.C13
 import Driver.C17
+import Driver.C08
 open Driver
 
 def dispatch (op : String) (args : List String) (obs : String) : Option Verdict :=
@@ -40,6 +41,7 @@ def dispatch (op : String) (args : List String) (obs : String) : Option Verdict 
   <|> (Driver.C12.handle op args obs)
   <|> (Driver.C13.handle op args obs)
   <|> (Driver.C17.handle op args obs)
+  <|> (Driver.C08.handle op args obs)
 
 def processLine (line : String) : String :=
   let line := line.trimRight
